@@ -31,6 +31,10 @@ pub enum Script {
 pub struct ViewSpec {
     pub entries: Vec<(ContentAddress, Key, Value)>,
     pub script: Script,
+    /// Fault injection: a `Range` request whose key range covers one of these keys fails with a state error
+    /// (whichever way the range is cut into requests, the same reads fail).
+    #[serde(default)]
+    pub poison: Vec<(ContentAddress, Key)>,
 }
 
 impl Default for ViewSpec {
@@ -38,6 +42,7 @@ impl Default for ViewSpec {
         ViewSpec {
             entries: vec![],
             script: Script::Range,
+            poison: vec![],
         }
     }
 }
@@ -116,6 +121,7 @@ pub struct View {
     pub which: u8,
     pub map: Arc<BTreeMap<(ContentAddress, Key), Value>>,
     pub script: Arc<Script>,
+    pub poison: Arc<std::collections::BTreeSet<(ContentAddress, Key)>>,
     pub log: Arc<SpyLog>,
 }
 
@@ -130,6 +136,7 @@ impl View {
             which,
             map: Arc::new(map),
             script: Arc::new(spec.script.clone()),
+            poison: Arc::new(spec.poison.iter().cloned().collect()),
             log,
         }
     }
@@ -143,6 +150,9 @@ impl View {
                 let mut out = Vec::new();
                 let mut key = key.clone();
                 for _ in 0..n.min(RANGE_CAP) {
+                    if !self.poison.is_empty() && self.poison.contains(&(contract.clone(), key.clone())) {
+                        return Err(format!("injected state failure at key {key:?}"));
+                    }
                     out.push(
                         self.map
                             .get(&(contract.clone(), key.clone()))
